@@ -316,13 +316,17 @@ func (s *ManagedServer) DeleteCredential(username string) error {
 // LoadFromFile loads credentials from the configured credential file
 // and applies the changes to the associated credential stores.
 func (s *ManagedServer) LoadFromFile() error {
+	// Read the file with the lock held, so that a reload cannot apply content that is older
+	// than what a concurrent reload or save has already committed.
+	s.mu.Lock()
+
 	content, close, err := mmap.ReadFile[string](s.path)
 	if err != nil {
+		s.mu.Unlock()
 		return err
 	}
 	defer close()
 
-	s.mu.Lock()
 	// Skip if the file content is unchanged since the last successful load.
 	// An empty file must not be mistaken for unchanged content on the first load.
 	if s.cachedCredMap != nil && content == s.cachedContent {
